@@ -7,7 +7,11 @@ One stream, two kinds of cases:
     machine; the oracle checks the property's structural claims on the real state and, for the
     value-checked cases, compiles the generated C with gcc and compares with `EvaluationMapper`.
   * "cval": a CSE-free integer expression: the emitted text and the value gcc computes for it are
-    compared with the model's `denC` (the C reading of the printed structure); the oracle compares
+    compared with the model's `denC` (C's reading of the printed text: ten precedence levels,
+    short-circuit `&&`/`||`, lazy `?:`); the driver also says whether the expression lies in the
+    proved fragment `PV.C14.cFrag` and what its reference meaning `denV` is — inside the fragment
+    `denV` must be the real evaluator's typed value and gcc must give the corresponding number
+    (the statement of `ccode_value_c_partial`, run on every generated case); the oracle compares
     gcc's value with `EvaluationMapper`.
 
 All C programs of a run are batched into ONE translation unit (one function per program); a second
@@ -56,6 +60,10 @@ C_HEADER = r"""
 #include <setjmp.h>
 static sigjmp_buf jb;
 static void onfpe(int s){ (void)s; siglongjmp(jb,1); }
+/* `min(a, b)` / `max(a, b)` as the mapper prints Min / Max of two operands: supplied by the user of
+   the generated code; here with Python's tie rule (the first operand wins) */
+#define min(a,b) ({ __typeof__((a)+(b)) _ma=(a), _mb=(b); _mb < _ma ? _mb : _ma; })
+#define max(a,b) ({ __typeof__((a)+(b)) _xa=(a), _xb=(b); _xa < _xb ? _xb : _xa; })
 #define ISF(v) _Generic((v), float:1, double:1, long double:1, default:0)
 #define P(u,i,e) do{ __typeof__(e) _v=(e); if(ISF(_v)) printf("%d %d d %.17g\n",u,i,(double)_v); else printf("%d %d i %lld\n",u,i,(long long)_v); }while(0)
 """
@@ -188,6 +196,22 @@ def py_eval(e, env):
     return EvaluationMapper({**env, **FUNCS})(e)
 
 
+def py_value_sx(e, env):
+    """the evaluator's value of an integer expression, typed: (int n) | (bool b) | (none) for an
+    exception | (other)"""
+    try:
+        v = py_eval(e, env)
+    except RecursionError:
+        raise
+    except Exception:
+        return "(none)"
+    if isinstance(v, bool):
+        return f"(bool {'true' if v else 'false'})"
+    if isinstance(v, int):
+        return f"(int {v})"
+    return "(other)"
+
+
 def is_intlike(v):
     return isinstance(v, (bool, int))
 
@@ -311,8 +335,9 @@ class Wrappers:
 class IntGen:
     """the integer part of the C-expressible fragment"""
 
-    def __init__(self, rng, cse=0.0, bitwise=0.05, bigpow=0.04):
+    def __init__(self, rng, cse=0.0, bitwise=0.05, bigpow=0.04, minmax=0.02, rich=0.0):
         self.rng, self.cse, self.bitwise, self.bigpow = rng, cse, bitwise, bigpow
+        self.minmax, self.rich = minmax, rich
         self.wr = Wrappers(rng, lambda d: self.num(max(d - 1, 0), nocse=rng.random() < 0.7))
 
     def leaf(self):
@@ -339,6 +364,8 @@ class IntGen:
             return self.leaf()
         if not nocse and r.random() < self.cse:
             return self.wr.wrap(d)
+        if self.rich and r.random() < self.rich:
+            return self.cshape(d, nocse, nopow)
         k = r.random()
         g = lambda: self.num(d - 1, nocse, nopow)  # noqa: E731
         if k < 0.2:
@@ -376,7 +403,64 @@ class IntGen:
                 return p.BitwiseNot(g())
             cls = r.choice([p.BitwiseAnd, p.BitwiseOr, p.BitwiseXor])
             return p.Comparison(cls((g(), g())), r.choice(CMPS), g())
+        if k < 0.92 + self.bitwise + self.minmax:
+            return r.choice([p.Min, p.Max])((g(), g()))
         return self.cond(d - 1, nocse, nopow)
+
+    def cshape(self, d, nocse=False, nopow=False):
+        """one node of the enlarged proved fragment (PV.C14.cFrag): comparisons, `?:`, `&&`, `||`,
+        `!`, `&`, `^`, `|`, `~`, shifts, two-operand min/max — operands of bitwise operators and
+        shifts are kept non-negative most of the time (sums of products, remainders, leaves)"""
+        r = self.rng
+        g = lambda: self.num(d - 1, nocse, True)  # noqa: E731
+        nn = lambda: self.nonneg(d - 1, nocse)  # noqa: E731
+        k = r.randrange(9)
+        if k == 0:
+            return p.If(self.cond(d - 1, nocse, True), g(), g())
+        if k == 1:
+            cls = r.choice([p.BitwiseAnd, p.BitwiseOr, p.BitwiseXor])
+            return cls(tuple(nn() for _ in range(r.randint(2, 3))))
+        if k == 2:
+            amount = r.choice([0, 1, 2, 3, p.Remainder(nn(), 4), p.RightShift(p.Remainder(nn(), 8), 1),
+                               p.LeftShift(1, p.Remainder(nn(), 2)), p.Sum((1, p.Remainder(nn(), 3))),
+                               p.BitwiseAnd((nn(), 3))])
+            return r.choice([p.LeftShift, p.RightShift])(nn(), amount)
+        if k == 3:
+            return p.BitwiseNot(nn())
+        if k == 4:
+            return r.choice([p.Min, p.Max])((g(), g()))
+        if k == 5:
+            return p.LogicalNot(r.choice([g, lambda: self.cond(d - 1, nocse, True)])())
+        if k == 6:
+            cls = r.choice([p.LogicalAnd, p.LogicalOr])
+            return cls(tuple(r.choice([g, lambda: self.cond(d - 1, nocse, True)])()
+                             for _ in range(r.randint(2, 3))))
+        if k == 7:
+            # a guard that keeps the second operand from being evaluated: x != 0 and a // x > 1
+            v = p.Variable(r.choice(IVARS))
+            return p.LogicalAnd((p.Comparison(v, "!=", 0),
+                                 p.Comparison(p.FloorDiv(g(), v), r.choice(CMPS), g())))
+        return p.Comparison(g(), r.choice(CMPS), g())
+
+    def nonneg(self, d, nocse=False):
+        """an expression that is non-negative on non-negative variables"""
+        r = self.rng
+        if d <= 0 or r.random() < 0.3:
+            return self.leaf()
+        k = r.randrange(6)
+        nn = lambda: self.nonneg(d - 1, nocse)  # noqa: E731
+        if k == 0:
+            return p.Sum((nn(), nn()))
+        if k == 1:
+            return p.Product((nn(), nn()))
+        if k == 2:
+            return p.Remainder(nn(), r.randint(2, 9))
+        if k == 3:
+            return p.FloorDiv(nn(), r.randint(1, 4))
+        if k == 4:
+            cls = r.choice([p.BitwiseAnd, p.BitwiseOr, p.BitwiseXor])
+            return cls((nn(), nn()))
+        return p.RightShift(nn(), r.randint(0, 2))
 
     def env(self):
         return {v: self.rng.randint(0, 9) for v in IVARS}
@@ -508,6 +592,75 @@ def two_level_int():
         yield p.Power(u, 0)
 
 
+def c_inner_shapes():
+    """one expression per node kind of the enlarged fragment (plus the arithmetic ones)"""
+    x, y, z, a, b = [p.Variable(v) for v in "xyzab"]
+    return [x, 3, p.Sum((y, 2)), sub(y, z), p.Product((a, b)), p.FloorDiv(y, 2),
+            p.Remainder(y, 3), p.Power(a, 2),
+            p.Comparison(y, "<", z), p.Comparison(a, "==", b), p.LogicalAnd((y, z)),
+            p.LogicalOr((a, z)), p.LogicalNot(y), p.BitwiseAnd((a, b)), p.BitwiseOr((y, z)),
+            p.BitwiseXor((a, z)), p.BitwiseNot(y), p.LeftShift(y, 1), p.RightShift(a, 1),
+            p.If(p.Comparison(y, ">", 2), a, b), p.Min((a, b)), p.Max((y, z))]
+
+
+def c_outer_ops():
+    x, z = p.Variable("x"), p.Variable("z")
+    return [("sum", lambda u, v: p.Sum((u, v))), ("sub", sub),
+            ("prod", lambda u, v: p.Product((u, v))), ("floordiv", p.FloorDiv),
+            ("rem", p.Remainder),
+            ("lt", lambda u, v: p.Comparison(u, "<", v)),
+            ("eq", lambda u, v: p.Comparison(u, "==", v)),
+            ("ge", lambda u, v: p.Comparison(u, ">=", v)),
+            ("and", lambda u, v: p.LogicalAnd((u, v))), ("or", lambda u, v: p.LogicalOr((u, v))),
+            ("and3", lambda u, v: p.LogicalAnd((z, u, v))),
+            ("band", lambda u, v: p.BitwiseAnd((u, v))), ("bor", lambda u, v: p.BitwiseOr((u, v))),
+            ("bxor", lambda u, v: p.BitwiseXor((u, v))),
+            ("bor3", lambda u, v: p.BitwiseOr((u, v, x))),
+            ("min", lambda u, v: p.Min((u, v))), ("max", lambda u, v: p.Max((u, v))),
+            ("if", lambda u, v: p.If(u, v, x)), ("if2", lambda u, v: p.If(x, u, v))]
+
+
+def two_level_c(rng, full):
+    """every operator of the enlarged fragment over the inner shapes: with one simple operand
+    (both positions) and on the diagonal always; all pairs in the thorough tier, a random sample
+    of pairs in the quick tier"""
+    x = p.Variable("x")
+    inner = c_inner_shapes()
+    for u in inner:
+        yield p.LogicalNot(u)
+        yield p.BitwiseNot(u)
+        yield p.LeftShift(u, 2)
+        yield p.RightShift(u, 1)
+        yield p.LeftShift(3, p.Remainder(u, 3))
+    # shifts as outer operators: the amount ranges over small-valued shapes of every kind
+    y, z, a = p.Variable("y"), p.Variable("z"), p.Variable("a")
+    small = [1, p.Remainder(y, 3), p.RightShift(a, 1), p.LeftShift(1, 1), p.Comparison(y, "<", z),
+             p.LogicalNot(y), p.BitwiseAnd((a, 3)), p.BitwiseOr((1, 2)), p.BitwiseXor((a, a)),
+             p.Min((a, 3)), p.If(p.Comparison(y, ">", 2), 1, 2), p.Sum((1, 1)), p.Product((2, 1)),
+             p.FloorDiv(y, 3), p.LogicalAnd((y, z)), p.LogicalOr((y, z)), p.Power(1, 2)]
+    lefts = inner if full else [x, p.Sum((y, 2)), p.LeftShift(y, 1), p.BitwiseAnd((a, 5))]
+    for u in lefts:
+        for v in small:
+            yield p.LeftShift(u, v)
+            yield p.RightShift(u, v)
+    if not full:
+        for u in inner:
+            yield p.LeftShift(u, p.RightShift(a, 1))
+            yield p.RightShift(u, p.LeftShift(1, 1))
+    for _name, o in c_outer_ops():
+        if full:
+            for u in inner:
+                for v in inner:
+                    yield o(u, v)
+        else:
+            for u in inner:
+                yield o(u, x)
+                yield o(x, u)
+                yield o(u, u)
+            for _ in range(12):
+                yield o(rng.choice(inner), rng.choice(inner))
+
+
 def fixed_findings():
     """the minimal inputs of the known findings (value-checked "hist" payloads)"""
     x, y, a, b, c = [p.Variable(v) for v in "xyabc"]
@@ -541,6 +694,9 @@ def fixed_findings():
            "src": "fixed",
            "ops": [["copymapped", 0, [["_cse_u", dumps(expr_to_sx(p.Sum((x, 1))))]]],
                    ["emit", 1, dumps(expr_to_sx(p.Sum((u, CSE(y, "u")))))]]}
+    for e in [p.LogicalAnd((y,)), p.LogicalOr((y,))]:
+        yield {"kind": "hist", "mode": "int", "reverse": True, "pfx": "_cse", "env": ienv,
+               "value": True, "src": "fixed", "ops": [["emit", 0, dumps(expr_to_sx(e))]]}
 
 # }}}
 
@@ -707,6 +863,10 @@ def expr_status(mode, env, e):
             r[1][0][0])
 
 
+# values tried for the siblings of a child when a failure is attributed (see `classify`)
+ALT_VALUES = [(0, 1), (1, 0), (1, 1), (2, 1), (0, 0), (3, 2), (1, 2), (2, 3), (5, 1), (7, 2)]
+
+
 def normalize(e):
     """value-preserving simplification used only to NAME a failure: one-operand sums/products
     unwrapped, nested sums/products flattened, e**1 -> e, e**2 -> e*e"""
@@ -822,6 +982,19 @@ def classify(mode, env, e, normalized=False):
         for k, (vst, _d, _vct) in vs:
             if vst in ("mismatch", "nocompile"):
                 return f"c-value-mismatch:{kind(s)}>{k}", f"{s!r}: {detail}", s
+        # no child reproduces the wrong value with its siblings' ACTUAL values: is there a child
+        # that does so alone for SOME values of the siblings?  (`a & b == a ^ z` is wrong although
+        # `a & b == q` and `q == a ^ z` happen to be right for the values at hand)
+        if mode == "int" and len(kids) > 1:
+            for k, v, env2 in variants(mode, env, sx):
+                qs = sorted(n for n in env2 if n not in env)
+                for trial in ALT_VALUES[:len(ALT_VALUES) if len(qs) == 1 else 6]:
+                    env3 = dict(env2)
+                    for j, n in enumerate(qs):
+                        env3[n] = trial[j % len(trial)]
+                    vst, _d, vct = expr_status(mode, env3, sx_to_expr(v))
+                    if vst == "mismatch" and vct != "d":
+                        return f"c-value-mismatch:{kind(s)}>{k}", f"{s!r}: {detail}", s
         ks = ",".join(sorted({c[0] for _p, c in kids}))
         return f"c-value-mismatch:{kind(s)}>{ks}", f"{s!r}: {detail}", s
     return "c-value-mismatch:history", "every subterm is fine on its own", e
@@ -903,10 +1076,11 @@ class CStream(Stream):
                 "env": env, "value": True, "src": "random-value",
                 "ops": [["emit", 0, dumps(expr_to_sx(e))] for e in es]}
 
-    def _cval(self, rng, e, src):
+    def _cval(self, rng, e, src, small=False):
+        """`small`: variables from 0 … 2 (zeros and ones make `!`, `&&`, `||`, `?:` decide)"""
         gen = IntGen(rng)
         for _attempt in range(8):
-            env = gen.env()
+            env = {v: rng.randint(0, 2) for v in IVARS} if small else gen.env()
             if in_range(e, env, "int") is not None:
                 break
         return {"kind": "cval", "mode": "int", "env": env, "expr": dumps(expr_to_sx(e)), "src": src}
@@ -916,9 +1090,15 @@ class CStream(Stream):
         pls = list(fixed_findings())
         for e in two_level_int():
             pls.append(self._cval(rng, e, "two-level"))
+        for e in two_level_c(rng, big):
+            pls.append(self._cval(rng, e, "two-level-c"))
+            pls.append(self._cval(rng, e, "two-level-c", small=True))
         g = IntGen(rng, bitwise=0.03)
         for _ in range(500 if not big else 8000):
             pls.append(self._cval(rng, g.num(rng.randint(2, 4)), "random"))
+        g = IntGen(rng, bitwise=0.03, bigpow=0.0, minmax=0.04, rich=0.45)
+        for _ in range(700 if not big else 10000):
+            pls.append(self._cval(rng, g.num(rng.randint(2, 4)), "random-c"))
         for _ in range(1300 if not big else 20000):
             pls.append(self._hist(rng, rng.choice(["int", "int", "float"]), False))
         for _ in range(420 if not big else 6000):
@@ -993,7 +1173,7 @@ class CStream(Stream):
                 val = f"(int {txt})" if typ == "i" else f"(double {txt})"
             else:
                 val = f"({r[0]})"
-            return f"({q(u['texts'][0])} {val})"
+            return f"({q(u['texts'][0])} {val} (py {py_value_sx(e, pl['env'])}))"
         try:
             steps, pool, _trace = replay(pl)
         except RecursionError:
@@ -1013,10 +1193,37 @@ class CStream(Stream):
             return "diff"
         if ms[0] != ims[0]:
             return "diff"
+        in_frag = len(ms) >= 4 and ms[2][1] == "true" and ms[3][0] != "none"
+        if in_frag:
+            # inside the proved fragment with a defined meaning (PV.C14.ccode_value_c_partial):
+            # `denV` is the real evaluator's value (type included), and both the model's C reading
+            # and gcc give the corresponding number
+            if dumps(ms[3]) != dumps(ims[2][1]):
+                return "diff"
+            want = int(ms[3][1]) if ms[3][0] == "int" else (1 if ms[3][1] == "true" else 0)
+            if ms[1][0] != "int" or int(ms[1][1]) != want:
+                return "diff"
+            if ims[1][0] != "int" or int(ims[1][1]) != want:
+                return "diff"
+            return "ok"
         if ms[1][0] == "none":
-            # the C reading of the model abstains (outside the integer chains / division by zero)
+            # the C reading of the model abstains (opaque text / an undefined operation)
             return "trivial"
-        return "ok" if dumps(ms[1]) == dumps(ims[1]) else "diff"
+        if dumps(ms[1]) == dumps(ims[1]):
+            return "ok"
+        if len(ms) >= 5 and ms[4][1] == "true" and ms[1][0] == "int":
+            # the text contains parts the C reading does not model (pow(…) in a branch that is
+            # not taken makes the whole `?:` a double, `… % 5` of it does not compile): the NUMBER
+            # is claimed where C computes one, not the C type
+            if ims[1][0] != "double":
+                return "diff" if ims[1][0] == "int" else "trivial"
+            # a double: the usual arithmetic conversions are outside the model (`(c ? 7 : pow(x, 3))/2`
+            # is 3.5): agreement is recorded when the number is the same, no claim otherwise
+            try:
+                return "ok" if float(ims[1][1]) == float(int(ms[1][1])) else "trivial"
+            except (ValueError, OverflowError):
+                return "trivial"
+        return "diff"
 
     def oracle(self, pl):
         if pl["kind"] == "cval":
@@ -1055,6 +1262,8 @@ class CStream(Stream):
     def stats(self, pl, mo, io, acc):
         k = pl["kind"] + ":" + pl.get("mode", "") + (":value" if pl.get("value") or pl["kind"] == "cval" else "")
         acc[k] = acc.get(k, 0) + 1
+        if pl["kind"] == "cval" and "(frag true)" in mo and not mo.rstrip().endswith("(none))"):
+            acc["cval:in_proved_fragment"] = acc.get("cval:in_proved_fragment", 0) + 1
         acc["compiler_runs"] = RUNS["compiler"]
         acc["c_programs"] = RUNS["units"]
         if pl["kind"] == "hist":
@@ -1073,7 +1282,8 @@ def probe():
         6: "c-value-mismatch:Comparison>BitwiseAnd", 7: "c-value-mismatch:Comparison>BitwiseOr",
         8: "c-value-mismatch:Comparison>BitwiseXor",
         9: "ccode-copy-forgets-hoisted-cse", 10: "ccode-copy-duplicate-name",
-        11: "ccode-copy-duplicate-name"}
+        11: "ccode-copy-duplicate-name",
+        12: "c-value-mismatch:LogicalAnd", 13: "c-value-mismatch:LogicalOr"}
     for i, pl in enumerate(fixed_findings()):
         f = st.oracle(pl)
         key = expected[i]
@@ -1096,14 +1306,19 @@ PROP = Prop(
                   "the C reading `denC` of the printed structure is tied to gcc by correspondence",
                   "extract/prec.py (precedence constants read from the live modules)"],
     assumptions=["C programs are compiled with gcc -O0; `long long` variables for integer "
-                 "environments, `double` for floating-point ones; values small enough not to overflow"],
+                 "environments, `double` for floating-point ones; values small enough not to overflow",
+                 "`min(a, b)` / `max(a, b)` printed for two-operand Min / Max are supplied to the C "
+                 "program as the usual macros"],
     level="proof",
     level_text="Lean theorems about the model of CCodeMapper: for all histories of calls on one "
                "mapper the hoisted names are pairwise distinct, every wrapped child is assigned "
                "exactly once, and every name used in an assignment or a returned text is assigned "
-               "earlier (false after copy(): witnesses); on the integer fragment without the "
-               "mis-parenthesised shapes the C value of the printed structure equals the "
-               "evaluator's. Text, allocator state and the C reading are tied to the real code and "
-               "to gcc by correspondence; floating point and gcc itself are runtime checks.",
+               "earlier (false after copy(): witnesses); on the C-expressible integer fragment "
+               "(arithmetic, comparisons, ?:, &&, ||, !, bitwise operators, shifts, two-operand "
+               "min/max) without the mis-parenthesised shapes, C's grammar groups the emitted text "
+               "as the tree and the C value equals the evaluator's (True/False as 1/0). Text, "
+               "allocator state, the C reading (vs gcc) and the reference meaning (vs the real "
+               "evaluator) are tied by correspondence; floating point and gcc itself are runtime "
+               "checks.",
     design_ref="DESIGN.md §4 C14",
 )
